@@ -7,7 +7,7 @@
    [refuted sp]: a concrete pair of valid claims (same nonce) differing in a relevant field with equal pre-image. *)
 From Coq Require Import ZArith List String.
 From FxV Require Import model.M_ClaimHash model.M_ClaimHashPreFix model.M_AttestExec gen.Gen_ClaimHash
-     proofs.P_ClaimHash proofs.P_ClaimHashGen proofs.P_AttestExec.
+     proofs.P_ClaimHash proofs.P_ClaimHashGen proofs.P_AttestExec proofs.P_ClaimHashX.
 Import ListNotations.
 Open Scope Z_scope.
 
@@ -96,6 +96,24 @@ Theorem C03_executed_is_voted : forall sp power required ops o c st' e,
             forall o' c', In (o', c') (a_votes claim a) -> relevant sp c' = relevant sp e.
 Proof. exact executed_is_voted_spec. Qed.
 Print Assumptions C03_executed_is_voted.
+
+(* claims of DIFFERENT types never share a pre-image (the attestation key is (nonce, hash) whatever the type) *)
+Theorem C03_cross_type_distinct : forall a b, In a Gen_all -> In b Gen_all -> s_name a <> s_name b ->
+  forall c1 c2, wf a c1 -> wf b c2 -> preimage a c1 <> preimage b c2.
+Proof. exact cross_type_distinct. Qed.
+Print Assumptions C03_cross_type_distinct.
+
+(* all six types voting into one attestation store: whatever is executed has the type and the relevant payload
+   every tallied voter voted for *)
+Theorem C03_executed_is_voted_all_types : forall power required ops o tc st' e,
+  Forall (fun oc => t_valid (snd oc)) ops -> t_valid tc ->
+  vote tclaim t_nonce t_key power required
+       (fst (run tclaim t_nonce t_key power required (init tclaim) ops)) o tc = (st', Executed e) ->
+  e = tc /\
+  exists a, In a (atts tclaim st') /\ a_observed tclaim a = true /\ In (o, tc) (a_votes tclaim a) /\
+            forall o' tc', In (o', tc') (a_votes tclaim a) -> t_payload tc' = t_payload e.
+Proof. exact executed_is_voted_all_types. Qed.
+Print Assumptions C03_executed_is_voted_all_types.
 
 Theorem C03_collision_changes_execution : forall sp c1 c2,
   wf sp c1 -> wf sp c2 -> relevant sp c1 <> relevant sp c2 -> preimage sp c1 = preimage sp c2 ->
